@@ -1545,7 +1545,12 @@ func (m *Monitor) onSample(ev *Event) {
 	// (only when the log shadow has not changed since before the sample was taken: otherwise the entry at that
 	// index may already be another one)
 	if s.Cfg != nil && s.Cfg.Index > 0 && s.LV == n.logVer {
-		if e := n.entry(s.Cfg.Index); e != nil && e.Type == 2 && e.Cfg != nil {
+		if e := n.entry(s.Cfg.Index); e != nil && (e.Type != 2 || e.Cfg == nil) {
+			// the entry at the index of the configuration in use is not a configuration entry at all: the entry the
+			// node took its configuration from is gone (replaced), and the node went on using it
+			m.Counts["c09.cfg_vs_log_checks"]++
+			m.violate(ev, []string{"C09"}, "configuration-not-in-log", n.ID, "node %s reports configuration %s but the entry at that index of its log is no configuration entry (type %d, term %d)", n.ID, s.Cfg.Canon(), e.Type, e.Term)
+		} else if e != nil {
 			m.Counts["c09.cfg_vs_log_checks"]++
 			if !e.Cfg.Equal(s.Cfg) {
 				m.violate(ev, []string{"C09"}, "configuration-differs-from-log", n.ID, "node %s reports configuration %s but the entry at that index of its log is %s", n.ID, s.Cfg.Canon(), e.Cfg.Canon())
